@@ -22,6 +22,11 @@ CHECKS = {
    ref="DESIGN.md 3.3, 4 C04",
    note=TB + " Entry contracts: non-nil receivers, header parsed from the same bytes, IKESAKey nil or fully populated; Iv/Padding never assigned by non-test code.",
    tech="static analysis: SSA dataflow with wrap-aware linear forms, dominator facts, loop-variant templates"),
+ "C13": dict(cat="other",
+   text="Decides the control structure that makes skipping sound: case constants and Type() methods of the 16 implementers are inverse bijections; the default arm continues exactly when bit 7 of octet 1 is clear (branch condition evaluated for all 256 octet values), with next-type/cursor updates structurally equal to the normal path and no append; the other edge returns a fresh error; the flags octet reaches no other branch and no payload decoder; progress and bounds of the walker by the E2 prover. Equality of decoded messages follows because the loop carries no other state; it is not separately derived.",
+   ref="DESIGN.md 4 C13",
+   note=TB,
+   tech="static analysis: CFG/φ structure rules, dispatch-table extraction, finite-domain evaluation of a one-octet test, structural expression equality"),
  "C17": dict(cat="proof",
    text="Proof of a sufficient structural condition: (1) hash.Hash typestate by forward dataflow over every module function using a hash (Write only on a fresh object or after Reset with no Sum in between); (2) every IKECrypto method is receiver-pure (transitive mod-set, alias analysis for element writes); (3) IKESAKey fields are stored only by GenerateKeyForIKESA/NewIKESAKey and protect/unprotect/child-derivation mod-sets contain no SA field. Hence no operation leaves state that a later one reads.",
    ref="DESIGN.md 3.5, 4 C17",
